@@ -1,10 +1,21 @@
 package main
 
-import "verifharness/hx"
+import (
+	"os"
+
+	"verifharness/hx"
+)
 
 var drivers = map[string]hx.DriverFn{}
 
-func main() { hx.Main(drivers) }
+func main() {
+	// "serve": an frps that lives until stdin is closed (child process of driver loginx)
+	if len(os.Args) >= 2 && os.Args[1] == "serve" {
+		serveChild(os.Args[2:])
+		return
+	}
+	hx.Main(drivers)
+}
 
 type runCfg = hx.RunCfg
 type caseFile = hx.CaseFile
